@@ -42,6 +42,8 @@ func C07(c *Ctx, r *report.Run) error {
 	}
 	units := blocked(r, w, "C07")
 	decls := map[string][2]model.TSDecls{}
+	sigs := map[string]map[string]model.TSMethodSig{}  // unit -> "<Service>Client.<method>" -> declared signature
+	hsigs := map[string]map[string]model.TSMethodSig{} // unit -> "<Service>Handler.<method>" -> declared handler signature
 	for _, u := range w.Units {
 		if !u.Healthy() {
 			continue
@@ -55,8 +57,18 @@ func C07(c *Ctx, r *report.Run) error {
 			}
 			if strings.HasSuffix(n, "_client.ts") {
 				cd = d
+				sg, err := model.ParseTSMethodSigs(src)
+				if err != nil {
+					r.Violate(u.Spec.Cell+",module=client.ts", "decl_unparseable", err.Error(), map[string]any{"spec": u.Spec, "file": n})
+				}
+				sigs[u.Name] = sg
 			} else if strings.HasSuffix(n, "_server.ts") {
 				sd = d
+				sg, err := model.ParseTSMethodSigs(src)
+				if err != nil {
+					r.Violate(u.Spec.Cell+",module=server.ts", "decl_unparseable", err.Error(), map[string]any{"spec": u.Spec, "file": n})
+				}
+				hsigs[u.Name] = sg
 			}
 		}
 		decls[u.Name] = [2]model.TSDecls{cd, sd}
@@ -95,12 +107,31 @@ func C07(c *Ctx, r *report.Run) error {
 			}
 		}
 	}
+	// sigOf: the signature the TS client declares for an RPC (method names are matched like the bridge does: case and underscores ignored)
+	sigIn := func(table map[string]map[string]model.TSMethodSig, suffix, unit, svc, rpc string) *model.TSMethodSig {
+		norm := func(x string) string { return strings.ToLower(strings.ReplaceAll(x, "_", "")) }
+		for k, sg := range table[unit] {
+			if i := strings.Index(k, "."); i > 0 && k[:i] == svc+suffix && norm(k[i+1:]) == norm(rpc) {
+				sg := sg
+				return &sg
+			}
+		}
+		return nil
+	}
+	sigOf := func(unit, svc, rpc string) *model.TSMethodSig { return sigIn(sigs, "Client", unit, svc, rpc) }
+	handlerSigOf := func(unit, svc, rpc string) *model.TSMethodSig { return sigIn(hsigs, "Handler", unit, svc, rpc) }
+	sigFound := 0
+	var declared *model.TSType // when set, the next judge call uses this type (the RPC's declared result) instead of the message's declaration
 	judge := func(unit, cellBase, class, source string, d model.TSDecls, full string, value any, raw string) {
 		cell := fmt.Sprintf("%s,src=%s", cellBase, source)
 		if d == nil {
 			return
 		}
 		t, name := tsTypeFor(d, full, pkgOf[unit])
+		if declared != nil {
+			t, name = declared, declared.String()
+			declared = nil
+		}
 		if t == nil {
 			r.Violate(cell+"#"+class, "type_not_declared", "no TypeScript declaration for "+full, nil)
 			r.Case(cell, "type_not_declared", true)
@@ -143,6 +174,13 @@ func C07(c *Ctx, r *report.Run) error {
 		if i := strings.Index(cls, ":"); i >= 0 && !strings.HasPrefix(cls, "resp:") {
 			continue // request enumerations all return the same response: judge response enumerations only
 		}
+		// the property speaks of "the TypeScript type the TS client declares as that RPC's result": Promise<T> of the method
+		if sg := sigOf(in.Unit, in.Svc, in.RPC); sg != nil {
+			declared = sg.Out
+			sigFound++
+		} else if decls[in.Unit][0] != nil {
+			r.Violate(fmt.Sprintf("%s,rpc=%s.%s,src=ts_client_module", in.Cell, in.Svc, in.RPC), "method_not_declared", "the TS client module declares no method for this RPC", nil)
+		}
 		judge(in.Unit, fmt.Sprintf("%s,rpc=%s.%s", in.Cell, in.Svc, in.RPC), cls, "go_server_response", decls[in.Unit][0], outType[key], v, in.Body)
 	}
 	// (b) contract-form requests and (c) TS handler inputs
@@ -156,17 +194,27 @@ func C07(c *Ctx, r *report.Run) error {
 		cellBase := fmt.Sprintf("%s,rpc=%s.%s", tc.Cell, tc.Svc, tc.RPC)
 		if strings.HasPrefix(tc.Class, "req:") {
 			if v, err := model.Parse(tc.ReqObj); err == nil {
+				// "the declared request interface": the type of the client method's req parameter
+				if sg := sigOf(tc.Unit, tc.Svc, tc.RPC); sg != nil {
+					declared = sg.In
+				}
 				judge(tc.Unit, cellBase, tc.Class, "contract_request", decls[tc.Unit][0], inType[key], v, string(tc.ReqObj))
 			}
 			if h := d.tsHandled[id]; h != nil && h["input"] != nil && str(h, "handled") != "" {
+				if sg := handlerSigOf(tc.Unit, tc.Svc, tc.RPC); sg != nil {
+					declared = sg.In
+				}
 				judge(tc.Unit, cellBase, tc.Class, "ts_handler_input(go_client)", decls[tc.Unit][1], inType[key], toTree(h["input"]), str(h, "input"))
 			}
 			if h := d.tsts[id]; h != nil && h["input"] != nil && str(h, "handled") != "" {
+				if sg := handlerSigOf(tc.Unit, tc.Svc, tc.RPC); sg != nil {
+					declared = sg.In
+				}
 				judge(tc.Unit, cellBase, tc.Class, "ts_handler_input(ts_client)", decls[tc.Unit][1], inType[key], toTree(h["input"]), str(h, "input"))
 			}
 		}
 	}
-	r.Sample(map[string]any{"declarations_parsed_units": len(decls), "go_server_instances": len(insts), "ts_cases": len(d.order)})
+	r.Sample(map[string]any{"declarations_parsed_units": len(decls), "responses_judged_against_declared_method_result": sigFound, "go_server_instances": len(insts), "ts_cases": len(d.order)})
 	r.States, r.Transitions, r.Traces = r.Evaluations, r.Evaluations, r.Evaluations
 	r.Assumptions = []string{"no TypeScript type checker exists in the sandbox: typing is decided by M-ts, a parser and membership relation for the declaration subset the generators emit (interfaces, aliases, string-literal unions, object literal types, intersections, arrays, Record, optional members, null unions, unknown)"}
 	_ = rt.Inst{}
